@@ -275,14 +275,18 @@ def assembleNet (tol : Rat) (vars : List RawVar) (cpts : List RawCpt) : Except S
 
 /-! ## topological order (`CodeGenerator.__topological_sort__`, Kahn with a FIFO queue) -/
 
+/-- parents of the i-th variable (none for an index outside the network) -/
+def parentsOf (net : Net) (i : Nat) : List Nat :=
+  match net[i]? with
+  | some v => v.parents
+  | none => []
+
 /-- visit of one source: every variable that has it among its parents loses one pending parent, and
     is queued when it reaches zero (scan in declaration order) -/
 def relax (net : Net) (src : Nat) : List Int → Nat → List Int × List Nat
   | [], _ => ([], [])
   | c :: cs, i =>
-    let hit := match net[i]? with
-      | some v => v.parents.contains src
-      | none => false
+    let hit := (parentsOf net i).contains src
     let c' := if hit then c - 1 else c
     let r := relax net src cs (i + 1)
     (c' :: r.1, if hit && c' == 0 then i :: r.2 else r.2)
@@ -297,19 +301,19 @@ def kahn (net : Net) : Nat → List Nat → List Int → List Nat → List Nat
 /-- `none` models the failing `assert len(topological_sort) == len(num_parents)` -/
 def topoOrder (net : Net) : Option (List Nat) :=
   let cnt : List Int := net.map (fun v => (v.parents.length : Int))
-  let srcs := (List.range net.length).filter (fun i => match net[i]? with
-    | some v => v.parents.isEmpty
-    | none => false)
+  let srcs := (List.range net.length).filter (fun i => (parentsOf net i).isEmpty)
   let out := kahn net (net.length + 1) srcs cnt []
   if out.length = net.length then some out else none
 
 /-- decidable validation of an order: a permutation of the variables in which parents come first -/
+def parentsOK (net : Net) (done : List Nat) (v : Nat) : Bool :=
+  match net[v]? with
+  | some var => var.parents.all (fun p => done.contains p)
+  | none => false
+
 def topoOK (net : Net) : List Nat → List Nat → Bool
   | _, [] => true
-  | done, v :: vs =>
-    (match net[v]? with
-     | some var => var.parents.all (fun p => done.contains p)
-     | none => false) && topoOK net (v :: done) vs
+  | done, v :: vs => parentsOK net done v && topoOK net (v :: done) vs
 
 def nodupB : List Nat → Bool
   | [] => true
